@@ -17,8 +17,8 @@ func (r *Rng) Intn(n int) int {
 	}
 	return int(r.U64() % uint64(n))
 }
-func (r *Rng) Range(lo, hi int) int { return lo + r.Intn(hi-lo+1) } // inclusive
-func (r *Rng) Bool() bool          { return r.U64()&1 == 1 }
+func (r *Rng) Range(lo, hi int) int     { return lo + r.Intn(hi-lo+1) } // inclusive
+func (r *Rng) Bool() bool               { return r.U64()&1 == 1 }
 func (r *Rng) Chance(num, den int) bool { return r.Intn(den) < num }
-func Pick[T any](r *Rng, xs []T) T { return xs[r.Intn(len(xs))] }
-func (r *Rng) Fork() *Rng          { return NewRng(r.U64()) }
+func Pick[T any](r *Rng, xs []T) T      { return xs[r.Intn(len(xs))] }
+func (r *Rng) Fork() *Rng               { return NewRng(r.U64()) }
